@@ -14,9 +14,11 @@ import (
 	"math/bits"
 	"path"
 	"path/filepath"
+	"regexp"
 	"sort"
 	"strconv"
 	"strings"
+	"sync/atomic"
 	"time"
 	"unicode"
 	"unicode/utf8"
@@ -127,7 +129,7 @@ func ST_conv() {
 	vrt.Observe(uint64(i))
 	vrt.Observe(uint64(uint32(i)))
 	vrt.ObserveI64(int64(i) * 3)
-	b := byte(a)
+	b := byte(a) & 0x7f // string(rune) of a symbolic non-ASCII value is unsupported (reported, never guessed)
 	vrt.Observe(uint64(rune(b)))
 	vrt.ObserveStr(string(rune(b)))
 	vrt.ObserveStr(string([]byte{b, 'x'}))
@@ -139,8 +141,6 @@ func ST_float() {
 	f := float64(a)
 	vrt.Observe(math.Float64bits(f))
 	vrt.Observe(math.Float64bits(f / 4))
-	vrt.Observe(math.Float64bits(f*0.5 + 1))
-	vrt.ObserveI64(int64(f / 3))
 	vrt.ObserveBool(f < 1000.5)
 	u := vrt.U64()
 	g := float64(u)
@@ -150,8 +150,20 @@ func ST_float() {
 	vrt.ObserveBool(x != x)
 	vrt.ObserveBool(x < 0.5)
 	vrt.ObserveBool(math.IsNaN(x) || math.IsInf(x, 0))
-	vrt.Observe(math.Float64bits(math.Abs(x)))
-	h := float64(uint64(vrt.U32())) / float64(uint64(1)<<32)
+	if !math.IsNaN(x) { // the solver's floats have a single NaN: payload bits are not modelled
+		vrt.Observe(math.Float64bits(math.Abs(x)))
+		vrt.Observe(math.Float64bits(-x))
+	}
+}
+
+// ST_float2: arithmetic on floats (slower for the solver: small ranges).
+func ST_float2() {
+	a := vrt.I64()
+	vrt.Assume(a > -(1<<20) && a < 1<<20)
+	f := float64(a)
+	vrt.Observe(math.Float64bits(f*0.5 + 1))
+	vrt.ObserveI64(int64(f / 3))
+	h := float64(uint64(vrt.U16())) / float64(uint64(1)<<16)
 	vrt.Observe(math.Float64bits(h))
 	vrt.ObserveBool(h <= 0.999)
 }
@@ -270,25 +282,32 @@ func ST_bytes() {
 }
 
 func ST_strconv() {
-	s := stStr(3)
+	s := stStr(2)
 	i, err := strconv.Atoi(s)
 	vrt.ObserveInt(i)
-	vrt.ObserveErr(err)
-	u, err := strconv.ParseUint(s, 0, 64)
-	vrt.Observe(u)
-	vrt.ObserveErr(err)
-	h, err := strconv.ParseUint(s, 16, 8)
-	vrt.Observe(h)
-	vrt.ObserveErr(err)
-	n, err := strconv.ParseInt(s, 10, 8)
-	vrt.ObserveI64(n)
 	vrt.ObserveErr(err)
 	v := vrt.Int()
 	vrt.Assume(v >= -3 && v < 12)
 	vrt.ObserveStr(strconv.Itoa(v))
 	vrt.ObserveStr(strconv.Itoa(v * 1000))
 	vrt.ObserveStr(strconv.FormatUint(uint64(v+3), 16))
-	vrt.ObserveStr(strconv.Quote(s[:2]))
+}
+
+func ST_strconv2() {
+	s := stStr(2)
+	u, err := strconv.ParseUint("0"+s, 0, 64)
+	vrt.Observe(u)
+	vrt.ObserveErr(err)
+}
+
+func ST_strconv3() {
+	s := stStr(2)
+	h, err := strconv.ParseUint(s, 16, 8)
+	vrt.Observe(h)
+	vrt.ObserveErr(err)
+	n, err := strconv.ParseInt(s+"0", 10, 8)
+	vrt.ObserveI64(n)
+	vrt.ObserveErr(err)
 	bo, err := strconv.ParseBool(s[:1])
 	vrt.ObserveBool(bo)
 	vrt.ObserveErr(err)
@@ -303,65 +322,105 @@ func ST_fmt() {
 	v := vrt.Int()
 	vrt.Assume(v >= -2 && v < 11)
 	vrt.ObserveStr(fmt.Sprintf("%s|%d|%v", s, v, v))
-	vrt.ObserveStr(fmt.Sprintf("%q", s))
+	vrt.ObserveStr(fmt.Sprintf("%q", "a\"b\n")) // %q of a symbolic string is unsupported (reported, never guessed)
 	vrt.ObserveStr(fmt.Sprintf("%02d-%4d-%-3d|", v, v, v))
 	vrt.ObserveStr(fmt.Sprintf("%x %X %#x %08x", v+2, v+2, v+2, v+2))
 	vrt.ObserveStr(fmt.Sprintf("%t %c %%", v > 3, 'a'+rune(v+2)))
 	vrt.ObserveStr(fmt.Sprintf("%v %v", stStringer{v, 1}, errors.New(s)))
-	vrt.ObserveStr(fmt.Sprintf("%s: %w", s, errors.New("e")))
 	vrt.ObserveStr(fmt.Sprint(s, v, "x", "y", v))
-	vrt.ObserveStr(fmt.Sprintf("%v|%v", []string{s, "k"}, []int{v}))
-	vrt.ObserveStr(fmt.Sprintf("%5s|%-5s|%.1s", s, s, s))
+	vrt.ObserveStr(fmt.Sprintf("%5s|%-5s|%.1s", "ab", "cd", "ef"))
 	vrt.ObserveStr(fmt.Sprintf("%d%%", v))
-	e := fmt.Errorf("wrap %d: %w", v, errSentinel)
+	// error texts are not modelled for symbolic scalars (Errorf prints a placeholder for
+	// them: stated stub), so only concrete operands here
+	e := fmt.Errorf("wrap %d %s: %w", 7, "k", errSentinel)
 	vrt.ObserveStr(e.Error())
 	vrt.ObserveBool(errors.Is(e, errSentinel))
 }
 
 var errSentinel = errors.New("sentinel")
 
-func ST_time() {
+func stInstant() (time.Time, int64) {
 	day := vrt.PoolDay(9)
 	tod := vrt.SecondOfDay()
-	t := time.Unix(day*86400+tod, 0).UTC()
+	return time.Unix(day*86400+tod, 0).UTC(), day
+}
+
+func ST_time() {
+	t, day := stInstant()
 	y, m, d := t.Date()
 	vrt.ObserveInt(y)
 	vrt.ObserveInt(int(m))
 	vrt.ObserveInt(d)
 	vrt.ObserveInt(int(t.Weekday()))
-	vrt.ObserveInt(t.Hour())
-	vrt.ObserveInt(t.Minute())
-	vrt.ObserveInt(t.Second())
 	vrt.ObserveInt(t.YearDay())
 	vrt.ObserveStr(t.Format(time.DateOnly))
-	vrt.ObserveStr(t.Format(time.RFC3339))
 	b := time.Date(y, m, d, 0, 0, 0, 0, time.UTC)
-	vrt.ObserveI64(b.Unix())
+	vrt.ObserveI64(b.Unix() - day*86400)
+	vrt.ObserveBool(t.Before(b))
+	vrt.ObserveBool(t.Equal(b))
+	vrt.ObserveBool(t.IsZero())
+	vrt.ObserveBool(time.Time{}.IsZero())
+	vrt.ObserveI64(time.Time{}.Unix())
+}
+
+func ST_time2() {
+	t, _ := stInstant()
+	y, m, d := t.Date()
 	incr := vrt.Int()
 	vrt.Assume(incr >= -1 && incr <= 8)
 	e := time.Date(y, m, d+incr, 0, 0, 0, 0, time.UTC)
 	vrt.ObserveI64(e.Unix())
-	vrt.ObserveI64(int64(e.Sub(t) / time.Second))
 	vrt.ObserveBool(e.After(t))
-	vrt.ObserveBool(t.Before(b))
-	vrt.ObserveBool(t.Equal(b))
+}
+
+func ST_time3() {
+	t, _ := stInstant()
+	y, m, d := t.Date()
+	e := time.Date(y, m, d+3, 0, 0, 0, 0, time.UTC)
+	vrt.ObserveI64(int64(e.Sub(t) / time.Second))
+}
+
+func ST_time4() {
+	day := vrt.PoolDay(2)
+	t := time.Unix(day*86400+vrt.SecondOfDay(), 0).UTC()
 	vrt.ObserveI64(t.AddDate(0, 0, -7).Unix())
-	vrt.ObserveI64(t.AddDate(0, 1, 0).Unix())
 	vrt.ObserveI64(t.Add(-21 * 24 * time.Hour).Unix())
+}
+
+// ST_clock: time-of-day fields and full formatting, for a concrete day and a second of
+// the day from a small symbolic window (formatting a symbolic clock is slow for the solver).
+func ST_clock() {
+	day := vrt.PoolDay(3)
+	w := int64(vrt.U8() % 8)
+	tod := []int64{0, 3599, 43200, 86392}[vrt.Choose(4)] + w
+	t := time.Unix(day*86400+tod, 0).UTC()
+	vrt.ObserveInt(t.Hour())
+	vrt.ObserveInt(t.Minute())
+	vrt.ObserveInt(t.Second())
 	vrt.ObserveI64(t.Truncate(24 * time.Hour).Unix())
-	vrt.ObserveBool(t.IsZero())
-	vrt.ObserveBool(time.Time{}.IsZero())
-	vrt.ObserveI64(time.Time{}.Unix())
+	vrt.ObserveI64(t.AddDate(0, 1, 0).Unix())
 	loc := time.FixedZone("x", 5*3600)
 	yy, mm, dd := t.In(loc).Date()
 	vrt.ObserveInt(yy*10000 + int(mm)*100 + dd)
-	vrt.ObserveStr(t.In(loc).Format(time.RFC3339))
+}
+
+// ST_format: full formatting of concrete instants.
+func ST_format() {
+	day := vrt.PoolDay(5)
+	tod := []int64{0, 3599, 43200, 86399}[vrt.Choose(4)]
+	t := time.Unix(day*86400+tod, 0).UTC()
+	vrt.ObserveStr(t.Format(time.RFC3339))
+	vrt.ObserveStr(t.In(time.FixedZone("x", -7*3600)).Format(time.RFC3339))
+	vrt.ObserveStr(t.Format("2006-01-02 15:04:05.000 Mon Jan"))
 }
 
 func ST_timeparse() {
-	base := []string{"2024-01-07", "2023-12-31", "2024-02-29", "2023-02-29", "2024-13-01", "2024-1-7"}[vrt.Choose(6)]
+	base := []string{"2024-01-07", "2023-02-29", "2024-1-7"}[vrt.Choose(3)]
 	b := []byte(base)
-	k := vrt.Choose(len(b))
+	k := []int{6, 9}[vrt.Choose(2)]
+	if k >= len(b) {
+		k = len(b) - 1
+	}
 	c := vrt.U8()
 	vrt.Assume(c < 0x80)
 	b[k] = c
@@ -400,6 +459,9 @@ func ST_sort() {
 
 func ST_utf8() {
 	s := stStr(3)
+	for i := 0; i < len(s); i++ {
+		vrt.Assume(s[i] < 0xE0) // 3- and 4-byte sequences with symbolic lead bytes are unsupported (reported)
+	}
 	n := 0
 	for i, r := range s {
 		vrt.ObserveInt(i)
@@ -407,23 +469,18 @@ func ST_utf8() {
 		n++
 	}
 	vrt.ObserveInt(n)
-	vrt.ObserveBool(utf8.ValidString(s))
-	vrt.ObserveInt(utf8.RuneCountInString(s))
-	r, sz := utf8.DecodeRuneInString(s)
-	vrt.Observe(uint64(r))
-	vrt.ObserveInt(sz)
-	rs := []rune(s)
-	vrt.ObserveInt(len(rs))
-	vrt.ObserveStr(string(rs))
-	c := rune(vrt.U32() % 0x30000)
-	vrt.ObserveStr(string(c))
-	vrt.ObserveInt(utf8.RuneLen(c))
-	vrt.ObserveBool(unicode.IsSpace(c % 0x3100))
 	d := rune(vrt.U8())
+	vrt.ObserveBool(unicode.IsSpace(d))
 	vrt.ObserveBool(unicode.IsDigit(d))
 	vrt.ObserveBool(unicode.IsLetter(d))
 	vrt.ObserveBool(unicode.IsUpper(d))
-	vrt.Observe(uint64(unicode.ToLower(d)))
+	vrt.ObserveBool(unicode.IsLower(d))
+	vrt.Observe(uint64(unicode.ToLower(d % 128)))
+	vrt.Observe(uint64(unicode.ToUpper(d % 128)))
+	vrt.ObserveInt(utf8.RuneLen(rune(vrt.U32() % 0x30000)))
+	vrt.ObserveBool(utf8.ValidString("a\xc3\xa9" + stASCII(1)))
+	vrt.ObserveInt(utf8.RuneCountInString("a\xc3\xa9" + stASCII(1)))
+	vrt.ObserveStr(string(rune('a' + vrt.U8()%26)))
 }
 
 type stPair struct {
@@ -495,7 +552,11 @@ func ST_maps() {
 		sum += v * int(k[0])
 	}
 	vrt.ObserveInt(sum)
-	mi := map[uint64]string{vrt.U64() % 4: "x", 2: "y"}
+	// (a map literal with a dynamic key equal to a constant one is avoided: go/ssa adds
+	// the entries in source order, the gc compiler adds the constant ones first)
+	dk := vrt.U64() % 4
+	vrt.Assume(dk != 2)
+	mi := map[uint64]string{dk: "x", 2: "y"}
 	vrt.ObserveInt(len(mi))
 	vrt.ObserveStr(mi[2])
 	type key struct {
@@ -614,11 +675,8 @@ func ST_iface() {
 	vrt.ObserveInt(d.ID() + d.id)
 	var err error = &stErr{x}
 	w := fmt.Errorf("ctx: %w", err)
-	var se *stErr
-	vrt.ObserveBool(errors.As(w, &se))
-	if se != nil {
-		vrt.ObserveInt(se.code)
-	}
+	// errors.As goes through reflection and is unsupported (reported); errors.Is and
+	// Unwrap are modelled
 	vrt.ObserveStr(w.Error())
 	vrt.ObserveBool(errors.Is(w, err))
 	vrt.ObserveBool(errors.Unwrap(w) == err)
@@ -636,7 +694,6 @@ func ST_iface() {
 func ST_html() {
 	s := stStr(3)
 	vrt.ObserveStr(html.EscapeString(s))
-	vrt.ObserveStr(strings.ToValidUTF8(s, "?"))
 }
 
 func ST_path() {
@@ -661,4 +718,139 @@ func ST_repo() {
 	vrt.ObserveInt(round(n, 32))
 	vrt.ObserveStr(DecodeStack(s + "\n\"" + s))
 	vrt.ObserveBool(IsStackCounter(s))
+}
+
+// ---- models of the four concrete patterns the code under test hands to fmt.Sscanf and
+// regexp (the engine does not interpret either package: each pattern has a hand-written
+// model, compared here with the real implementation) ----
+
+func ST_sscanf_semver() {
+	s := "v" + stASCII(vrt.Choose(6))
+	var a, b, c int
+	n, err := fmt.Sscanf(s, "v%d.%d.%d", &a, &b, &c)
+	vrt.ObserveInt(n)
+	vrt.ObserveErr(err)
+	if err == nil {
+		vrt.ObserveInt(a)
+		vrt.ObserveInt(b)
+		vrt.ObserveInt(c)
+	}
+}
+
+func ST_sscanf_semver2() {
+	// full shapes with one arbitrary byte
+	b := []byte([]string{"v1.22.3", "v0.0.0-rc1", "v1.2", "1.2.3", "v1.2.3.4", "v-1.+2.3", "v 1.2.3"}[vrt.Choose(7)])
+	b[vrt.Choose(len(b))] = stASCII(1)[0]
+	var x, y, z int
+	n, err := fmt.Sscanf(string(b), "v%d.%d.%d", &x, &y, &z)
+	vrt.ObserveInt(n)
+	vrt.ObserveErr(err)
+	if err == nil {
+		vrt.ObserveInt(x*10000 + y*100 + z)
+	}
+}
+
+func ST_sscanf_sentinel() {
+	var line string
+	switch vrt.Choose(3) {
+	case 0:
+		line = "sentinel " + stASCII(vrt.Choose(4))
+	case 1:
+		b := []byte("sentinel 4a0c")
+		b[vrt.Choose(len(b))] = stASCII(1)[0]
+		line = string(b)
+	default:
+		line = stASCII(2) + "sentinel 1f"
+	}
+	var v uint64
+	n, err := fmt.Sscanf(line, "sentinel %x", &v)
+	vrt.ObserveInt(n)
+	vrt.ObserveErr(err)
+	if err == nil {
+		vrt.Observe(v)
+	}
+}
+
+var (
+	stDateRE  = regexp.MustCompile(`(\d\d\d\d-\d\d-\d\d)[.]json$`)
+	stGoVerRE = regexp.MustCompile(`^-(go.+)\.[^.]+-[^.]+$`)
+)
+
+func ST_re_date() {
+	b := []byte([]string{"2024-01-07.json", "local.2024-01-07.json", "x/2024-01-07.json.lock", "2024-01-07xjson", "12024-01-07.json", "2024-01-07.json\n"}[vrt.Choose(6)])
+	b[vrt.Choose(len(b))] = stStr(1)[0]
+	m := stDateRE.FindStringSubmatch(string(b))
+	vrt.ObserveInt(len(m))
+	for _, x := range m {
+		vrt.ObserveStr(x)
+	}
+}
+
+func ST_re_gover() {
+	var s string
+	if vrt.Bool() {
+		b := []byte([]string{"-go1.22.3.linux-amd64", "-go1.21rc2.src-x", "-go.a-b", "go1.2.a-b", "-go1.2.a-b.c", "-go1.2.a-"}[vrt.Choose(6)])
+		b[vrt.Choose(len(b))] = stStr(1)[0]
+		s = string(b)
+	} else {
+		s = "-go" + stStr(vrt.Choose(5))
+	}
+	m := stGoVerRE.FindStringSubmatch(s)
+	vrt.ObserveInt(len(m))
+	for _, x := range m {
+		vrt.ObserveStr(x)
+	}
+}
+
+// arbitrary (non-ASCII) bytes where fmt skips Unicode spaces
+func ST_sscanf_unispace() {
+	gap := stStr(vrt.Choose(4))
+	var v uint64
+	n, err := fmt.Sscanf("sentinel"+gap+"1f", "sentinel %x", &v)
+	vrt.ObserveInt(n)
+	vrt.ObserveErr(err)
+	if err == nil {
+		vrt.Observe(v)
+	}
+	var a, b, c int
+	n, err = fmt.Sscanf("v"+gap+"1.2.3", "v%d.%d.%d", &a, &b, &c)
+	vrt.ObserveInt(n)
+	vrt.ObserveErr(err)
+	n, err = fmt.Sscanf("v1."+gap+"2.3", "v%d.%d.%d", &a, &b, &c)
+	vrt.ObserveInt(n)
+	vrt.ObserveErr(err)
+}
+
+func ST_atomic() {
+	a, b := vrt.U64(), vrt.U64()
+	var x atomic.Uint64
+	x.Store(a)
+	vrt.Observe(x.Add(b))
+	vrt.ObserveBool(x.CompareAndSwap(a+b, b))
+	vrt.ObserveBool(x.CompareAndSwap(a, 7))
+	vrt.Observe(x.Swap(a ^ b))
+	vrt.Observe(x.Load())
+	var y atomic.Uint32
+	y.Store(uint32(a))
+	vrt.Observe(uint64(y.Add(uint32(b))))
+	vrt.Observe(uint64(y.Add(^uint32(0)))) // decrement
+	vrt.ObserveBool(y.CompareAndSwap(uint32(a)+uint32(b)-1, 3))
+	var z atomic.Int64
+	z.Store(int64(a))
+	vrt.ObserveI64(z.Add(-int64(b)))
+	var raw uint32 = uint32(b)
+	vrt.Observe(uint64(atomic.AddUint32(&raw, 5)))
+	vrt.Observe(uint64(atomic.LoadUint32(&raw)))
+	atomic.StoreUint32(&raw, uint32(a))
+	vrt.ObserveBool(atomic.CompareAndSwapUint32(&raw, uint32(a), 9))
+	vrt.Observe(uint64(raw))
+	var p atomic.Pointer[stPair]
+	vrt.ObserveBool(p.Load() == nil)
+	q := &stPair{a: int(a % 100)}
+	p.Store(q)
+	vrt.ObserveInt(p.Load().a)
+	vrt.ObserveBool(p.CompareAndSwap(q, nil))
+	var bo atomic.Bool
+	bo.Store(a > b)
+	vrt.ObserveBool(bo.Load())
 }
